@@ -485,33 +485,51 @@ def sweep_pdf():
     return None
 
 
-def mbox_doc(bodies):
-    out = b""
+def mbox_doc(bodies, pad="\n\n", eol="\n", header_only=()):
+    """Mailbox: every message starts with a `From ` separator LINE (that is the format's definition of a message
+    boundary); `pad` is what the writer puts after a body (a blank line, only the line end, nothing more), `eol` the
+    line ending; messages listed in header_only have no body at all (they end with their last header line)."""
+    out = ""
     for i, b in enumerate(bodies):
-        out += (f"From s{i}@x.org Mon Jan  1 00:00:0{i} 2024\nFrom: s{i}@x.org\nTo: r@x.org\nSubject: m{i}\n"
-                f"Date: Mon, 1 Jan 2024 00:00:0{i} +0000\nMessage-ID: <{i}@x>\n\n{b}\n\n").encode()
-    return out
+        out += f"From s{i}@x.org Mon Jan  1 00:00:0{i} 2024\nFrom: s{i}@x.org\nTo: r@x.org\nSubject: m{i}\n" \
+               f"Date: Mon, 1 Jan 2024 00:00:0{i} +0000\nMessage-ID: <{i}@x>\n"
+        if i in header_only:
+            continue
+        out += f"\n{b}{pad}"
+    return out.replace("\n", eol).encode()
 
 
-def check_mbox(bodies):
+def check_mbox(bodies, pad="\n\n", eol="\n", header_only=()):
     from sharepoint2text.parsing.extractors.mail.mbox_email_extractor import read_mbox_format_mail
-    res = list(read_mbox_format_mail(io.BytesIO(mbox_doc(bodies))))
+    header_only = tuple(header_only)
+    data = mbox_doc(bodies, pad, eol, header_only)
+    res = list(read_mbox_format_mail(io.BytesIO(data)))
     subj = [m.subject for m in res]
     per = [observe(m) for m in res]
-    ok = subj == [f"m{i}" for i in range(len(bodies))] and all(len(o) == 1 and o[0][0] == 1 and o[0][1] == b.strip() for o, b in zip(per, bodies)) \
+    want = [("" if i in header_only else b.replace("\n", eol).strip()) for i, b in enumerate(bodies)]
+    ok = subj == [f"m{i}" for i in range(len(bodies))] \
+        and all(len(o) == 1 and o[0][0] == 1 and o[0][1].replace("\r\n", "\n") == w.replace("\r\n", "\n") for o, w in zip(per, want)) \
         and all(m.get_full_text() == spec_fulltext(o) for m, o in zip(res, per))
     if not ok:
-        return {"target": "mbox_email_extractor.py::read_mbox_format_mail", "inputs": {"check": "mbox", "bodies": bodies},
-                "expected": "one EmailContent per message in mailbox order, each with one unit numbered 1 holding the body",
-                "observed": f"subjects={subj} units={per}", "check": "mbox"}
+        return {"target": "mbox_email_extractor.py::read_mbox_format_mail",
+                "inputs": {"check": "mbox", "bodies": bodies, "pad": pad, "eol": eol, "header_only": list(header_only), "mbox": data.decode()},
+                "expected": "one EmailContent per `From ` separator line, in mailbox order, each with one unit numbered 1 holding that message's body",
+                "observed": f"{len(res)} message(s): subjects={subj} units={per}", "check": "mbox"}
     return None
 
 
 def sweep_mbox():
     pool = ["hello", "", "two\nlines"]
-    for n in range(1, 4):
-        for st in itertools.product(pool, repeat=n):
-            r = check_mbox(list(st))
+    for pad in ("\n\n", "\n"):                 # blank line after every message / only the line end
+        for eol in ("\n", "\r\n"):
+            for n in range(1, 4):
+                for st in itertools.product(pool, repeat=n):
+                    r = check_mbox(list(st), pad, eol)
+                    if r:
+                        return r
+    for ho in ((0,), (1,), (0, 1)):               # messages without a body
+        for eol in ("\n", "\r\n"):
+            r = check_mbox(["a", "b", "c"], "\n\n", eol, ho)
             if r:
                 return r
     return None
@@ -614,7 +632,7 @@ def rerun(stored):
     elif chk == "pdf":
         r = check_pdf(inp["blank_pages"])
     elif chk == "mbox":
-        r = check_mbox(inp["bodies"])
+        r = check_mbox(inp["bodies"], inp.get("pad", "\n\n"), inp.get("eol", "\n"), inp.get("header_only", ()))
     if r:
         r["reproduced"] = True
         return r
